@@ -138,13 +138,32 @@ class proceed:
         self.fn = fn
 
     def __enter__(self):
-        self.curr = HandlerCollection.current.get() or HandlerCollection([])
-        self.interactor, new = self.curr.proceed(self.fn)
-        self.reset = HandlerCollection.current.set(new)
+        self.outer = HandlerCollection.current.get()
+        self.curr = self.outer or HandlerCollection([])
+        self.interactor, self.inner = self.curr.proceed(self.fn)
+        self.interactor.context = self
+        self.suspended = False
+        HandlerCollection.current.set(self.inner)
         return self.interactor
 
+    def suspend(self):
+        # A generator is about to yield: give the caller its own collection
+        # back, so that it is not treated as running inside the generator.
+        if not self.suspended:
+            self.suspended = True
+            HandlerCollection.current.set(self.outer)
+
+    def resume(self):
+        # The generator was resumed, possibly from a different place: remember
+        # what to restore at the next yield or at exit.
+        if self.suspended:
+            self.suspended = False
+            self.outer = HandlerCollection.current.get()
+            HandlerCollection.current.set(self.inner)
+
     def __exit__(self, typ, exc, tb):
-        HandlerCollection.current.reset(self.reset)
+        if not self.suspended:
+            HandlerCollection.current.set(self.outer)
         self.interactor.exit()
 
 
